@@ -128,6 +128,7 @@ def tags(src: str) -> set:
         if isinstance(n, ast.AugAssign):
             # `t op= e` reads t first
             hs = list(_hoisted_parts(n.value))
-            if isinstance(n.target, ast.Name) and any(n.target.id in _walrus_targets(h) for h in hs):
+            names = {m.id for m in ast.walk(n.target) if isinstance(m, ast.Name)}       # (`xs[i] op= e` reads xs and i first)
+            if any(names & _walrus_targets(h) for h in hs):
                 out.add("hoist-order")
     return out
